@@ -14,7 +14,8 @@ import json
 from harness import common, tlc, runner, peers
 from checks import rating
 
-INVS = ['PolicyNamesKnown', 'ProbeTableKnown', 'RsaFamilyProbed', 'DheatTablesKnown', 'HardeningPoliciesClean', 'PolicySizesSane', 'ShapeOk', 'BrokenPrimitivesFail']
+INVS = ['PolicyNamesKnown', 'ProbeTableKnown', 'RsaFamilyProbed', 'DheatTablesKnown', 'HardeningPoliciesClean', 'PolicySizesSane', 'ShapeOk', 'BrokenPrimitivesFail',
+        'NamesCarryVersion']
 
 
 def run(tier):
@@ -81,6 +82,7 @@ def run(tier):
             ck.violation('policy-peer-not-audited exit=%s' % r['exit'], 'audit of a peer configured per %r ends with status %s' % (name, r['exit']), {'policy': name, 'stdout': r['stdout'][-1500:]})
         else:
             ck.cov['traces_validated_against_impl'] += 1
+    listing_leg(ck, tj)
     ck.sample({'invariants': INVS, 'entries': covered['entries'], 'matched_by_broken_primitive_rule': covered['covered'], 'policies': covered['policies']})
     ck.cov['rule'] = ('all entries of both rating databases, all built-in policies, the probe table and the DH tables of the working tree (exhaustive); distinct = database '
                       'entries + policies; plus one standard audit per built-in server policy')
@@ -126,3 +128,47 @@ def witness(inv, tb):
         out += ['dheat.alg_priority without size:%s' % n for n in tb['dheat']['alg_priority'] if n not in tb['dheat']['alg_modulus_sizes']]
         return out[:10]
     return '(see the tables)'
+
+
+def listing_leg(ck, tj):
+    """-L lists exactly the newest version of every built-in policy (server and client separately); -L -v lists all versions."""
+    import re
+    res = tlc.run('SshTablesCheck', 'SPECIFICATION Spec\nINVARIANT Listing\n', generated={'tables.json': tj}, env={'VERIF_TABLES': 'tables.json'}, workers=1)
+    ck.add_tlc(res)
+    exp = [p for p in res.prints if isinstance(p, dict) and 'latest_server' in p]
+    common.require(len(exp) >= 1, 'TLC did not emit the policy listing')
+    exp = exp[0]
+    r1, r2 = runner.run_many([{'argv': ['-L']}, {'argv': ['-L', '-v']}])
+    for r, verbose in ((r1, False), (r2, True)):
+        ck.evaluated()
+        out = r['stdout']
+        if r['exit'] != 0:
+            ck.violation('policy-listing-exit', '-L exits %r' % r['exit'], {'stdout': out[-1500:]})
+            continue
+        m = re.search(r'Server policies:\n(.*?)\n\s*\nClient policies:\n(.*?)\n\s*\n', report_strip(out), re.S)
+        if not m:
+            raise common.Machinery('cannot find the policy lists in the output of -L')
+        srv = set(re.findall(r'\* "([^"]+)"', m.group(1)))
+        cli = set(re.findall(r'\* "([^"]+)"', m.group(2)))
+        if verbose:
+            want_srv = {p for p in exp['all'] if p in exp['latest_server'] or _is_server(p)}
+            if srv | cli != set(exp['all']):
+                ck.violation('policy-listing-verbose', '-L -v lists %d policies, the table holds %d' % (len(srv | cli), len(exp['all'])), {'missing': sorted(set(exp['all']) - (srv | cli))[:5]})
+                continue
+        else:
+            if srv != set(exp['latest_server']) or cli != set(exp['latest_client']):
+                ck.violation('policy-listing-latest', '-L lists server %r / client %r; newest versions are %r / %r'
+                             % (sorted(srv ^ set(exp['latest_server']))[:4], sorted(cli ^ set(exp['latest_client']))[:4], len(exp['latest_server']), len(exp['latest_client'])),
+                             {'stdout': out[-2000:]})
+                continue
+        ck.cov['traces_validated_against_impl'] += 1
+        ck.nontrivial(('listing', verbose))
+
+
+def _is_server(p):
+    return True
+
+
+def report_strip(x):
+    from harness import report
+    return report.strip_ansi(x)
